@@ -595,6 +595,66 @@ def desugar_result_map(db, body):
     return nb
 
 
+def desugar_bool_then(db, body):
+    """`cond.then(|| e)` with a closure literal rewritten as `if cond { Some(e) } else { None }` (and `cond.then_some(v)` likewise), so a
+    guard written with the combinator is the same code to the rules as one written with `if`."""
+    mir = None
+    for bi, blk0 in enumerate(body["mir"]["blocks"]):
+        t0 = blk0["term"]
+        if not (t0["k"] == "call" and t0["f"].get("k") == "fn" and t0["f"]["def"] in ("core::bool::<impl bool>::then", "core::bool::<impl bool>::then_some")
+                and not blk0["cleanup"] and t0.get("target") is not None and len(t0["args"]) == 2):
+            continue
+        src_locs = (mir or body["mir"])["locals"]
+        cond, clop = t0["args"][0], t0["args"][1]
+        is_then = t0["f"]["def"].endswith("::then")
+        targs = [a for a in t0["f"].get("args", []) if a.get("k") != "region"]
+        if not targs:
+            continue
+        cb = None
+        if is_then:
+            if clop.get("k") not in ("move", "copy") or clop["p"]["p"]:
+                continue
+            cty = src_locs[clop["p"]["l"]]["ty"]
+            cb = db.by_path.get(cty["def"]) if cty.get("k") == "closure" else None
+            if cb is None or cb["mir"]["arg_count"] != 1:
+                continue
+        if mir is None:
+            mir = copy.deepcopy(body["mir"])
+        blocks, locs = mir["blocks"], mir["locals"]
+        blk = blocks[bi]
+        t = blk["term"]
+        T_ = targs[0]
+        at = t.get("at")
+        unwind = t["unwind"]["cleanup"] if isinstance(t.get("unwind"), dict) else None
+        ox = {"def": "core::option::Option", "args": [T_], "active": None}
+        blocks.append({"cleanup": False, "stmts": [{"k": "assign", "lhs": copy.deepcopy(t["dest"]), "at": at, "rv": {"k": "agg", "ak": "Adt", "x": dict(ox, variant=0), "ops": []}}],
+                       "term": {"k": "goto", "target": t["target"], "at": at, "exp": t.get("exp")}, "inl": "desugar"})
+        none_i = len(blocks) - 1
+        if is_then:
+            locs.append({"ty": T_, "s": "then-result"})
+            lt = len(locs) - 1
+            blocks.append({"cleanup": False, "stmts": [{"k": "assign", "lhs": copy.deepcopy(t["dest"]), "at": at,
+                                                        "rv": {"k": "agg", "ak": "Adt", "x": dict(ox, variant=1), "ops": [{"k": "move", "p": {"l": lt, "p": []}}]}}],
+                           "term": {"k": "goto", "target": t["target"], "at": at, "exp": t.get("exp")}, "inl": "desugar"})
+            wrap_i = len(blocks) - 1
+            cm = copy.deepcopy(cb["mir"])
+            off_l, off_b = _splice(blocks, locs, cm, {"l": lt, "p": []}, wrap_i, unwind, at, cb["key"])
+            binds = [{"k": "assign", "lhs": {"l": off_l + 1, "p": []}, "rv": {"k": "use", "op": copy.deepcopy(clop)}, "at": at}]   # FnOnce: the closure by value
+            blocks.append({"cleanup": False, "stmts": binds, "term": {"k": "goto", "target": off_b, "at": at, "exp": t.get("exp")}, "inl": "desugar"})
+            some_i = len(blocks) - 1
+        else:
+            blocks.append({"cleanup": False, "stmts": [{"k": "assign", "lhs": copy.deepcopy(t["dest"]), "at": at,
+                                                        "rv": {"k": "agg", "ak": "Adt", "x": dict(ox, variant=1), "ops": [copy.deepcopy(clop)]}}],
+                           "term": {"k": "goto", "target": t["target"], "at": at, "exp": t.get("exp")}, "inl": "desugar"})
+            some_i = len(blocks) - 1
+        blk["term"] = {"k": "switch", "discr": copy.deepcopy(cond), "targets": [[0, none_i]], "otherwise": some_i, "at": at, "exp": t.get("exp")}
+    if mir is None:
+        return body
+    nb = dict(body)
+    nb["mir"] = mir
+    return nb
+
+
 def desugar_option_filter(db, body):
     """`opt.filter(|x| p(x))` with a closure literal rewritten as `match opt { Some(x) if p(&x) => Some(x), _ => None }`."""
     mir = None
